@@ -74,6 +74,11 @@ type ReplayFile struct {
 	// Generate: no tape was recorded (the process died); replay regenerates
 	// the run from the seed.
 	Generate bool `json:"generate_from_seed,omitempty"`
+	// Flaky: the code under test itself behaved nondeterministically for this
+	// run (e.g. it depends on Go map iteration order, which no seam controls):
+	// the violation was observed on a real execution and reproduced in at least
+	// one of several fresh processes, but not in every one. Replay retries.
+	Flaky bool `json:"code_under_test_nondeterministic,omitempty"`
 }
 
 func StreamsToMap(s Streams) map[string][]uint32 {
@@ -319,8 +324,8 @@ func modeReplay(e Engine) int {
 		return 3
 	}
 	tries := 1
-	if rf.Race {
-		tries = 20 // free-running mode replays by seed with retries
+	if rf.Race || rf.Flaky {
+		tries = 20 // free-running mode / nondeterministic code under test: replay with retries
 	}
 	for k := 0; k < tries; k++ {
 		t := ReplayTape(rf.Seed, MapToStreams(rf.Tape))
